@@ -18,6 +18,32 @@ theorem getTotalRewards_model_eq_gen (h : Accum.Handle) (r : Accum.Record) : Acc
   unfold Accum.getTotalRewards Gen.Accum.GetTotalRewards
   tie_eq
 
+/-- A — the sign dispatch of `UpdatePositionIntervalAccumulation` regenerated from accum.go, spelled out: zero shares is an
+error, a negative amount goes to RemoveFrom… with its NEGATION, a positive one to AddTo… -/
+theorem UpdatePositionIntervalAccumulation_gen {DC : Type} (rem add : Int → DC → Option Unit) (n : Int) (iv : DC) :
+    Gen.Accum.UpdatePositionIntervalAccumulation rem add n iv =
+      if n = 0 then none else if n < 0 then rem (-n) iv else add n iv := by
+  unfold Gen.Accum.UpdatePositionIntervalAccumulation
+  split
+  · rfl
+  · split
+    · cases rem (-n) iv <;> rfl
+    · cases add n iv <;> rfl
+
+/-- … which is the dispatch of `Accum.updatePositionInterval` (the model returns the store/handle/result triple of the
+mutator it dispatches to; `none` = the `ZeroSharesError`). -/
+theorem updatePositionInterval_dispatch_eq_gen (st : Accum.Store) (h : Accum.Handle) (pos : String) (n : Int) (iv : Accum.DecCoins) :
+    (if n = 0 then none else some (Accum.updatePositionInterval st h pos n iv)) =
+      if n = 0 then none else if n < 0 then some (Accum.removeFromPositionInterval st h pos (-n) iv)
+      else some (Accum.addToPositionInterval st h pos n iv) := by
+  unfold Accum.updatePositionInterval
+  by_cases h0 : n = 0
+  · simp only [h0, if_true]
+  · simp only [h0, if_false]
+    by_cases hn : n < 0
+    · simp only [hn, if_true]
+    · simp only [hn, if_false]
+
 /-- B — `AccumulatorObject.ClaimRewards`: mirrored by `Accum.claimRewards` -/
 theorem opsx_AccumulatorObject_ClaimRewards_pinned : Gen.Accum.opsx_AccumulatorObject_ClaimRewards =
     ["GetPosition(v0,v1)", "GetTotalRewards(v0,v2)", "TruncateDecimal(v4)", "IsZero(v2.NumShares)",
